@@ -109,9 +109,10 @@ def main():
                         broken.append((nm, '%s:%d: %s' % (f, ln, m[:300])))
                 if not errs:
                     broken.append((lean_module, build_out[-400:]))
-            okd, dout = lake_build(['sqlmodel'])
-            if not okd and not broken:
-                broken.append(('sqlmodel-driver', dout[-400:]))
+            if getattr(mod, 'NEEDS_DRIVER', True):
+                okd, dout = lake_build(['sqlmodel'])
+                if not okd and not broken:
+                    broken.append(('sqlmodel-driver', dout[-400:]))
 
     thms = theorems_of(lean_rel) if os.path.exists(os.path.join(LEAN, lean_rel)) else []
     axioms = {}
